@@ -214,84 +214,71 @@ func ruleSortAfterInsert(c *Ctx, rule string) {
 func ruleOrderedScan(c *Ctx, rule string) {
 	a := c.A
 	c.R.Rule(c.R.Property+"."+rule, 3, "alternatives are tried in list order, each at most once; an alternative is given up only by falling back to the next one")
-	for _, f := range a.Backtrackers {
-		// the scan: a call of the segment matcher on children[i] where i is a loop phi
-		an.AllInstrs(f, func(in ssa.Instruction) {
-			call, ok := calleeIs(in, a.SegmentMatch)
-			if !ok {
-				return
-			}
-			if childViaIndex(c, call.Args[0]) {
-				// index branch: before the scan
-				return
-			}
-			// seg = load(child.segment); child = load IndexAddr(children, i)
-			var idx ssa.Value
-			if u, ok := call.Args[0].(*ssa.UnOp); ok {
-				if fa, ok := u.X.(*ssa.FieldAddr); ok {
-					if cu, ok := fa.X.(*ssa.UnOp); ok {
-						if ia, ok := cu.X.(*ssa.IndexAddr); ok {
-							if _, isCh := fieldLoadOf(ia.X, a.NodeT, a.FChildren); isCh {
-								idx = ia.Index
-							}
-						}
-					}
+	sites := attemptSites(c)
+	for _, s := range sites {
+		f, in := s.f, ssa.Instruction(s.in)
+		if nodeViaIndex(c, s.child) {
+			continue // index branch: before the scan
+		}
+		// child = load IndexAddr(children, i)
+		var idx ssa.Value
+		if cu, ok := s.child.(*ssa.UnOp); ok {
+			if ia, ok := cu.X.(*ssa.IndexAddr); ok {
+				if _, isCh := fieldLoadOf(ia.X, a.NodeT, a.FChildren); isCh {
+					idx = ia.Index
 				}
 			}
-			phi, isPhi := idx.(*ssa.Phi)
-			if !isPhi {
-				// a range loop: index is phi+1 (rangeindex)
-				if bo, ok := idx.(*ssa.BinOp); ok && bo.Op == token.ADD {
-					if p2, ok := bo.X.(*ssa.Phi); ok && strings.Contains(p2.Comment, "rangeindex") {
-						c.R.Add(rule, c.fk(f), "scan:range-over-children", c.pos(in), false, "the ordered scan ranges over all children from position 0: literal children reached through the first-byte index are tried a second time")
-						return
-					}
-				}
-				c.R.Add(rule, c.fk(f), "scan:index", c.pos(in), false, "the scanned child is not children[i] for a loop counter i")
-				return
-			}
-			startOK, stepOK := false, true
-			for _, e := range phi.Edges {
-				t := c.O.Of(e).String()
-				switch {
-				case t == "call<builtin:len>(recv."+a.FIndexes+")":
-					startOK = true
-				case isPlusOne(e, phi):
-				default:
-					stepOK = false
+		}
+		phi, isPhi := idx.(*ssa.Phi)
+		if !isPhi {
+			// a range loop: index is phi+1 (rangeindex)
+			if bo, ok := idx.(*ssa.BinOp); ok && bo.Op == token.ADD {
+				if p2, ok := bo.X.(*ssa.Phi); ok && strings.Contains(p2.Comment, "rangeindex") {
+					c.R.Add(rule, c.fk(f), "scan:range-over-children", c.pos(in), false, "the ordered scan ranges over all children from position 0: literal children reached through the first-byte index are tried a second time")
+					continue
 				}
 			}
-			c.R.Add(rule, c.fk(f), "scan:starts-at-len(index)", c.pos(in), startOK, ifelse(startOK, "the scan starts right after the indexed literal children", "the ordered scan does not start at len(indexes): indexed literal children are retried or parameter children skipped"))
-			c.R.Add(rule, c.fk(f), "scan:i=i+1", c.pos(in), stepOK, ifelse(stepOK, "the counter only moves forward by one: each child is tried once, in list order", "the scan counter is updated other than by +1: children are skipped, revisited or visited out of order"))
-			// loop bound is len(children)
-			hb := phi.Block()
-			okBound := false
-			if ifi, ok := hb.Instrs[len(hb.Instrs)-1].(*ssa.If); ok {
-				if bo, ok := ifi.Cond.(*ssa.BinOp); ok && bo.Op == token.LSS && bo.X == ssa.Value(phi) {
-					okBound = c.O.Of(bo.Y).String() == "call<builtin:len>(recv."+a.FChildren+")"
-				}
+			c.R.Add(rule, c.fk(f), "scan:index", c.pos(in), false, "the scanned child is not children[i] for a loop counter i")
+			continue
+		}
+		startOK, stepOK := false, true
+		for _, e := range phi.Edges {
+			t := c.O.Of(e).String()
+			switch {
+			case t == "call<builtin:len>(recv."+a.FIndexes+")":
+				startOK = true
+			case isPlusOne(e, phi):
+			default:
+				stepOK = false
 			}
-			c.R.Add(rule, c.fk(f), "scan:until-len(children)", c.pos(in), okBound, ifelse(okBound, "the scan covers every remaining child", "the ordered scan does not run up to len(children)"))
-		})
-		// the index branch precedes the scan: the scan loop is not reachable... simply: index lookup dominates nothing after the loop
-		an.AllInstrs(f, func(in ssa.Instruction) {
-			call, ok := calleeIs(in, a.SegmentMatch)
-			if !ok || !childViaIndex(c, call.Args[0]) {
-				return
+		}
+		c.R.Add(rule, c.fk(f), "scan:starts-at-len(index)", c.pos(in), startOK, ifelse(startOK, "the scan starts right after the indexed literal children", "the ordered scan does not start at len(indexes): indexed literal children are retried or parameter children skipped"))
+		c.R.Add(rule, c.fk(f), "scan:i=i+1", c.pos(in), stepOK, ifelse(stepOK, "the counter only moves forward by one: each child is tried once, in list order", "the scan counter is updated other than by +1: children are skipped, revisited or visited out of order"))
+		// loop bound is len(children)
+		hb := phi.Block()
+		okBound := false
+		if ifi, ok := hb.Instrs[len(hb.Instrs)-1].(*ssa.If); ok {
+			if bo, ok := ifi.Cond.(*ssa.BinOp); ok && bo.Op == token.LSS && bo.X == ssa.Value(phi) {
+				okBound = c.O.Of(bo.Y).String() == "call<builtin:len>(recv."+a.FChildren+")"
 			}
-			// no path from a scan-match back to the index-match
-			back := false
-			an.AllInstrs(f, func(x ssa.Instruction) {
-				c2, ok := calleeIs(x, a.SegmentMatch)
-				if !ok || childViaIndex(c, c2.Args[0]) {
-					return
-				}
-				if (&an.Query{Target: func(t ssa.Instruction) bool { return t == in }}).Search(an.After(x)) != nil {
-					back = true
-				}
-			})
-			c.R.Add(rule, c.fk(f), "index-branch-before-scan", c.pos(in), !back, ifelse(!back, "the indexed literal child is tried first, once", "the indexed literal child can be tried again after the scan started"))
-		})
+		}
+		c.R.Add(rule, c.fk(f), "scan:until-len(children)", c.pos(in), okBound, ifelse(okBound, "the scan covers every remaining child", "the ordered scan does not run up to len(children)"))
+	}
+	// the index branch precedes the scan: no path from a scan attempt back to the index attempt
+	for _, s := range sites {
+		if !nodeViaIndex(c, s.child) {
+			continue
+		}
+		back := false
+		for _, s2 := range sites {
+			if s2.f != s.f || nodeViaIndex(c, s2.child) {
+				continue
+			}
+			if (&an.Query{Target: func(t ssa.Instruction) bool { return t == ssa.Instruction(s.in) }}).Search(an.After(s2.in)) != nil {
+				back = true
+			}
+		}
+		c.R.Add(rule, c.fk(s.f), "index-branch-before-scan", c.pos(s.in), !back, ifelse(!back, "the indexed literal child is tried first, once", "the indexed literal child can be tried again after the scan started"))
 	}
 }
 
@@ -305,7 +292,6 @@ func isPlusOne(v ssa.Value, phi *ssa.Phi) bool {
 }
 
 var _ = types.Typ
-
 
 // orderPreserving: v is a sub-sequence (same relative order) of the list with access path src: the list itself, a
 // sub-slice, nil / a fresh empty slice, slices.Delete / DeleteFunc / Clone / Clip / Grow of such a value, or the result
